@@ -116,12 +116,22 @@ type LockSpec struct {
 
 // LockKinds enumerates the catalogue.
 var LockKinds = []string{
-	"v1-std", "v1-2of3", "v1-1of2-timelock", "v1-unknown-algo", // v1-style (uc)
+	"v1-std", "v1-2of3", "v1-1of2-timelock", "v1-unknown-algo", "v1-zero-sig", // v1-style (uc)
 	"pk", "thresh-1of2-opaque", "thresh-2of3-nested", "hash", "above-and-pk", "after-and-pk", "anyone", "thresh-hash-or-pk",
 }
 
 // NumV1Kinds is the number of leading entries of LockKinds that are v1-style.
-const NumV1Kinds = 4
+const NumV1Kinds = 5
+
+// KindIndex returns the index of a named lock kind.
+func KindIndex(name string) int {
+	for i, k := range LockKinds {
+		if k == name {
+			return i
+		}
+	}
+	panic("unknown lock kind " + name)
+}
 
 // MakeLock builds the lock for a spec.
 func MakeLock(s LockSpec) Lock {
@@ -141,6 +151,9 @@ func MakeLock(s LockSpec) Lock {
 		return mkUC(types.UnlockConditions{Timelock: s.Height, PublicKeys: []types.UnlockKey{k1.UnlockKey(), k2.UnlockKey()}, SignaturesRequired: 1})
 	case "v1-unknown-algo":
 		return mkUC(types.UnlockConditions{PublicKeys: []types.UnlockKey{{Algorithm: UnknownAlgo, Key: []byte{1, 2, 3}}, k1.UnlockKey()}, SignaturesRequired: 2})
+	case "v1-zero-sig":
+		// no signature required: nothing but the double-spend rules stands between two uses of such a parent
+		return mkUC(types.UnlockConditions{PublicKeys: []types.UnlockKey{k1.UnlockKey()}, SignaturesRequired: 0})
 	case "pk":
 		return Lock{Kind: kind, Policy: types.PolicyPublicKey(k1), V2OK: true}
 	case "thresh-1of2-opaque":
